@@ -1,6 +1,17 @@
 """Input generators shared by the domains. Every random choice derives from the random.Random handed in."""
 import itertools, random
 
+
+def shift(o, d):
+    """add d to every position of a ground-truth structure (all ints except booleans are positions)"""
+    if isinstance(o, bool): return o
+    if isinstance(o, int): return o + d
+    if isinstance(o, list): return [shift(x, d) for x in o]
+    if isinstance(o, tuple): return tuple(shift(x, d) for x in o)
+    if isinstance(o, dict): return {k: shift(v, d) for k, v in o.items()}
+    return o
+
+
 ABBR_ALPHA = list("aA1$#.[]{}()*>+^=\"'\\ @-/!:")          # 26 symbols: the punctuation alphabet of the abbreviation language
 CSS_ABBR_ALPHA = list("ab1.#-+!,:()\"'$@%/ t{}_G")
 HTML_ALPHA = list("<>/=\"'a b-![]?")
